@@ -72,6 +72,8 @@ def make_episode(rng, i):
     if ep['end'] == 'twin_second_closes' and kind != 'out_direct':
         ep['end'] = 'never'
     ep['cut'] = rng.randint(0, 40)
+    if kind == 'out_indirect' and rng.random() < 0.25:
+        ep['twin_pierce'] = True       # the peer answers the relayed request with two connections carrying the same ticket
     return ep
 
 
@@ -94,6 +96,12 @@ def corpus(tier):
     out = []
     net = {'base_ms': 5, 'jitter_ms': 0, 'segmentation': 'whole', 'coalesce': True}
     base = {'frames': 2, 'frame_gap': 0.01, 'live_for': 0.5, 'plus_iter': 0, 'cut': 5, 'at': 0.0, 'peer': 'p0'}
+    # the peer answers a relayed request with two connections that carry the same ticket
+    for mode in ('race', 'fallback'):
+        for typ in ('P', 'D', 'F'):
+            for end in ('never', 'local_disconnect', 'local_disconnect_x2'):
+                out.append({'seed': 1, 'net': net, 'mode': mode,
+                            'episodes': [dict(base, kind='out_indirect', obf=False, typ=typ, end=end, twin_pierce=True)]})
     for obf in (False, True):
         for end in PRE_INIT_ENDS:
             out.append({'seed': 1, 'net': net, 'mode': 'race',
@@ -449,6 +457,15 @@ def _run(world: World, plan):
                 return
             await asyncio.sleep(0.05)
             port, obf = (relay.obfuscated_port, True) if (ep['obf'] and relay.obfuscated_port) else (relay.port, False)
+            if ep.get('twin_pierce') and ep['end'] in ('never', 'local_disconnect', 'local_disconnect_x2', 'local_disconnect_x3'):
+                # (only with ends that are played on the client's side: which of the two the client adopts is its choice)
+                # a second connection with the same ticket, under way at the same time (both arrive in one instant)
+                fired['second_connection_with_the_same_ticket'] += 1
+
+                async def twin():
+                    link2 = await peer.connect_pierce(relay.ip, port, relay.ticket, relay.typ, obfuscated=obf)
+                    await drain(link2)
+                peer.spawn(twin())
             link = await peer.connect_pierce(relay.ip, port, relay.ticket, relay.typ, obfuscated=obf)
             await serve_link(peer, ep, link, True)
         return handler
